@@ -71,6 +71,11 @@ CHECKS = {
    text='The raw stored bytes of the shipped AIG and XAIG databases are decoded by the independent TLA+ decoder (Codec.DecodeBytes) and by get_by_label; TLC checks every examined entry for well-formedness, truth table = key and gate types within the database basis (quick: all 1-/2-output entries + a seeded sample of 3-output entries; thorough: all 2 x 349,724 entries, exhaustive over the finite data set). Lookups of all fully defined 2-input 1-2-output and 3-input 1-output tables and sampled 3-output tables (equal / complementary outputs) must compute the requested table in order, or be absent from the key set under an independent normalisation; model lookups must agree with every defined entry and be no larger than the lookup of any completion.',
    note='Trusted: TLC, Codec.tla, an 8-line independent normalisation for key presence. Exploration level in the quick tier (sampled entries); the thorough tier enumerates the finite data set completely.',
    tech='independent TLA+ decoder evaluated by TLC on the raw database bytes; recorded lookups validated by TLC'),
+
+ 'C06': dict(cat='model_checking', ref='5 (C06)',
+   text='Soundness: every circuit returned by CircuitFinderSat.find_circuit for all 81 (2,1) models and sampled (2,2),(3,1),(3,2) models x budgets x bases (enum / string / custom lists) x need_normalized x fix_gate / forbid_wire combinations (with and without the forked solver path) is judged by TLC: exactly r binary gates over two distinct earlier nodes, types in the basis, outputs at gates, agreement with the model off don\'t-cares, every imposed constraint. Completeness: Synth.tla is the search space itself as a state machine; TLC explores the program space of every configuration for which NoSolutionError was reported and refutes the claim iff a complete reachable program matches the model (one exploration decides all claims of a configuration).',
+   note='Trusted: TLC, Synth.tla / JudgeSynth, the solver shim. Budgets <= 3 (4 in thorough for 2 inputs); calls that use the circuit database shortcut are outside the property.',
+   tech='TLA+ state machine of straight-line programs model-checked by TLC decides NoSolution claims; returned circuits validated by a TLC trace specification'),
 }
 PENDING = 'check not built yet in this round (work in progress; see DESIGN.md section 5)'
 m = {
